@@ -99,7 +99,10 @@ func c20Pool(o *Out, min, max int) {
 			tag := unsafe.SliceData(b)
 			p.Put(&b)
 			for _, L := range lv {
-				x := p.Get(L)
+				x := safeGet(o, p, min, max, L)
+				if x == nil {
+					break
+				}
 				if cap(*x) > 0 && unsafe.SliceData(*x) == tag {
 					found = fmt.Sprint(L)
 					if len(*x) != L {
@@ -248,4 +251,14 @@ func c20Alias(o *Out, r *rand.Rand) {
 	}
 	wg.Wait()
 	o.Eval(fmt.Sprintf("alias concurrent zip %dx%d", workers, iters), true)
+}
+
+func safeGet(o *Out, p *util.LimitedPool, min, max, n int) (buf *[]byte) {
+	defer func() {
+		if pv := recover(); pv != nil {
+			o.Violate("c20.pool.get.panic", fmt.Sprintf("Get(%d) on pool(%d,%d) panicked: %v", n, min, max, pv), map[string]any{"min": min, "max": max, "get": n})
+			buf = nil
+		}
+	}()
+	return p.Get(n)
 }
